@@ -32,7 +32,7 @@ CHECK_DEADLOCK FALSE
 """
 
 
-def run_harness_lines(cmd, inp, out, items, timeout=90):
+def run_harness_lines(cmd, inp, out, items, timeout=90, max_crashes=10):
     """run a vh wire command; a crash of the process (stack overflow, abort) or a hang is data:
     returns (observations, crashes) where crashes is a list of (index, reason)"""
     write_ndjson(inp, items)
@@ -41,7 +41,7 @@ def run_harness_lines(cmd, inp, out, items, timeout=90):
     start = 0
     cur_in = inp
     guard = 0
-    while start < len(items) and guard < 10:
+    while start < len(items) and guard < max_crashes:
         guard += 1
         if start:
             cur_in = inp + ".%d" % start
